@@ -59,7 +59,10 @@ def _run(ev, work, thorough):
     hl, resl = D.export_histories(work, frames="FramesLong", maxops=2)
     hl = [h for h in hl if len(h[0]["groups"]) >= 11]
     ev.add_tlc("DatasetExport: histories starting with an 11-row-group write (part ids reach 10)", resl, histories=len(hl))
-    hists = hists + hl
+    hg, resg = D.export_histories(work, frames="FramesGap", maxops=3, partitioned="OnlyPartitioned")
+    hg = [h for h in hg if any(len(c) == 0 for r in h for c in (r.get("frame") or []))]
+    ev.add_tlc("DatasetExport: histories with an empty chunk (gap in the part ids)", resg, histories=len(hg))
+    hists = hists + hl + hg
     if thorough:
         h2, res2 = D.export_histories(work, frames="FramesSmall", maxops=3)
         ev.add_tlc("DatasetExport: history tree (FramesSmall, 3 operations)", res2, histories=len(h2))
